@@ -26,7 +26,7 @@ def corpus_cases():
 
 
 def merge_cases(pid, tier, seed):
-    cases = corpus_cases()
+    cases = corpus_cases() + gen_pos.odd_cases()
     if pid == 'C01':
         cases += list(gen_pos.story_cases() if tier == 'quick'
                       else gen_pos.story_cases(ns=(0, 1, 2, 3, 4, 5), max_src=3, big_patterns=gen_pos.B.PATTERNS))
